@@ -299,7 +299,7 @@ def make_strategy(tier, k):
 
 def worker(k, n, tier, seed, known_buckets, extra):
     try:
-        return standard_worker(PROP, make_strategy(tier, k), evaluate, k, n, tier, seed, known_buckets, quick_examples=36, thorough_examples=1200, shrink_quick=60, shrink_thorough=300)
+        return standard_worker(PROP, make_strategy(tier, k), evaluate, k, n, tier, seed, known_buckets, quick_examples=36, thorough_examples=600, shrink_quick=60, shrink_thorough=300)
     finally:
         if "z" in _Z:
             _Z.pop("z").close()
